@@ -200,7 +200,7 @@ type Case struct {
 	ID    int             `json:"id"`
 	Class string          `json:"class"`
 	Q     string          `json:"q"`    // hex of the query text
-	Mode  string          `json:"mode"` // plan | tags | values
+	Mode  string          `json:"mode"` // plan | tags | values | eval (eval: PlanEval, the complexity estimate; only through --cases, the generator does not emit it)
 	Key   string          `json:"key"`  // values mode
 	Ctx   Ctx             `json:"ctx"`
 	Calls int             `json:"calls"`         // how many times Process is called on the same planner (ComplexRequestProcessor re-uses it)
@@ -246,6 +246,8 @@ func run(c *Case) {
 			pl, err = clickhouse_transpiler.PlanTagsV2(script)
 		case "values":
 			pl, err = clickhouse_transpiler.PlanValuesV2(script, c.Key)
+		case "eval":
+			pl, err = clickhouse_transpiler.PlanEval(script)
 		default:
 			pl, err = clickhouse_transpiler.Plan(script)
 		}
